@@ -148,7 +148,7 @@ theorem sim_insertChar {dc : DrawCfg} {rc : RenderCfg} (hich : IchFx dc rc) {t :
   have hagrid := insertAt_corner_grid a x y b st hsh hw2
   exact {
     good := ⟨R.good.st, R.good.utf8, R.good.font, R.good.g0, R.good.so, R.good.irm, R.good.mal, R.good.rw⟩
-    quiet := ⟨R.quiet.link, R.quiet.vis⟩
+    quiet := ⟨R.quiet.link, R.quiet.vis, R.quiet.ff⟩
     w := R.w, h := R.h
     cells := by
       intro i j hi hj
@@ -227,7 +227,7 @@ theorem sim_cmd {dc : DrawCfg} {rc : RenderCfg} (hrw : RwB dc.rw) (fx : CapsFx d
     have hw := R.w; have hh := R.h
     exact {
       good := good_of_eq R.good rfl rfl (ModesOk.refl _) rfl
-      quiet := ⟨R.quiet.link, R.quiet.vis⟩
+      quiet := ⟨R.quiet.link, R.quiet.vis, R.quiet.ff⟩
       w := R.w, h := R.h, cells := R.cells, conts := R.conts
       cur := by
         intro x' y' hc hx' hy'
@@ -249,7 +249,7 @@ theorem sim_cmd {dc : DrawCfg} {rc : RenderCfg} (hrw : RwB dc.rw) (fx : CapsFx d
     rw [fx.pen t s R.good R.quiet had]
     exact {
       good := good_of_eq R.good rfl rfl (ModesOk.refl _) rfl
-      quiet := ⟨fun _ => ⟨rfl, by show (penOf rc s).link = none; simp [penOf, show s.url = "" from had]⟩, R.quiet.vis⟩
+      quiet := ⟨fun _ => ⟨rfl, by show (penOf rc s).link = none; simp [penOf, show s.url = "" from had]⟩, R.quiet.vis, R.quiet.ff⟩
       w := R.w, h := R.h, cells := R.cells, conts := R.conts, cur := R.cur
       pen := by
         intro s' h
@@ -271,14 +271,16 @@ theorem sim_cmd {dc : DrawCfg} {rc : RenderCfg} (hrw : RwB dc.rw) (fx : CapsFx d
     rw [e]
     exact {
       good := good_of_eq R.good rfl rfl mo rfl
-      quiet := ⟨R.quiet.link, fun h => by
+      quiet := ⟨R.quiet.link, (fun h => by
         -- a terminal with a hide string: the premise is false
         exfalso
         have : Render.render rc .hideCursor = [] := by simp [Render.render, h]
         rw [this] at e
         have : t.modes = m' := by simpa [Term.feed] using congrArg Term.modes e
         have h1 := R.quiet.vis h
-        rw [this, hv] at h1; cases h1⟩
+        rw [this, hv] at h1
+        cases h1),
+        R.quiet.ff⟩
       w := R.w, h := R.h, cells := R.cells, conts := R.conts
       cur := fun x y h hx hy => curRep_modes mo (R.cur x y h hx hy)
       pen := R.pen
@@ -289,7 +291,7 @@ theorem sim_cmd {dc : DrawCfg} {rc : RenderCfg} (hrw : RwB dc.rw) (fx : CapsFx d
     rw [e]
     exact {
       good := good_of_eq R.good rfl rfl mo rfl
-      quiet := ⟨R.quiet.link, fun _ => hv⟩
+      quiet := ⟨R.quiet.link, fun _ => hv, R.quiet.ff⟩
       w := R.w, h := R.h, cells := R.cells, conts := R.conts
       cur := fun x y h hx hy => curRep_modes mo (R.cur x y h hx hy)
       pen := R.pen
